@@ -31,13 +31,16 @@ Theorem C04_trailing_refused : forall t n bs, fixed_size t = Some n -> n < len_N
 Proof. exact deser_rejects_trailing_fixed. Qed.
 Print Assumptions C04_trailing_refused.
 
-(* limits of bitlists and byte lists are enforced; a bitlist without its delimiter bit is refused *)
+(* limits of bitlists, byte lists and lists are enforced (limit+1 elements are refused); a bitlist without its delimiter bit is refused *)
 Theorem C04_bitlist_limit : forall l bs b, deserialize (TBitlist l) bs = Some (VBits b) -> len_N b <= l.
 Proof. exact deser_bitlist_limit. Qed.
 Print Assumptions C04_bitlist_limit.
 Theorem C04_bytelist_limit : forall l bs b, deserialize (TByteList l) bs = Some (VBytes b) -> len_N b <= l.
 Proof. exact deser_bytelist_limit. Qed.
 Print Assumptions C04_bytelist_limit.
+Theorem C04_list_limit : forall et l bs vs, deserialize (TList et l) bs = Some (VSeq vs) -> len_N vs <= l.
+Proof. exact deser_list_limit. Qed.
+Print Assumptions C04_list_limit.
 Theorem C04_bitlist_delimiter : forall l bs, (bs = [] \/ exists p, bs = p ++ [0]) -> deserialize (TBitlist l) bs = None.
 Proof. exact deser_bitlist_needs_delimiter. Qed.
 Print Assumptions C04_bitlist_delimiter.
